@@ -9,7 +9,7 @@ WT=/tmp/st/$(basename $SD)
 git -C /repo worktree remove --force $WT 2>/dev/null; rm -rf $WT; git -C /repo worktree prune
 git -C /repo worktree add -q --detach $WT HEAD || exit 9
 export CARGO_TARGET_DIR=$WT/target CARGO_NET_OFFLINE=true
-cp $SD/out/demo/$DEMO $WT/$DEST/
+mkdir -p $WT/$DEST; cp $SD/out/demo/$DEMO $WT/$DEST/
 echo "== [$PID] demo on unchanged code"; (cd $WT && timeout 2400 cargo test --offline -p $CRATE --test $TEST 2>&1 | grep -E "^test result|FAILED|error(\[|:)" | head -5)
 echo "== apply patch"; git -C $WT apply $SD/out/patch.diff && echo applied
 echo "== demo on patched code"; (cd $WT && timeout 2400 cargo test --offline -p $CRATE --test $TEST 2>&1 | grep -E "^test result|\.\.\. FAILED" | head -6)
